@@ -1057,7 +1057,12 @@ func main() {
 	case "names":
 		for _, s := range specs {
 			opt := len(s.kinds) - s.min
-			fmt.Printf("%s\t%s\t%s\t%d\t%v\n", s.name, s.callee, strings.Join(s.kinds, ","), opt, s.variadic)
+			// last column: the value the specification passes for each optional argument that is not given
+			defs := make([]string, len(s.defaults))
+			for i, d := range s.defaults {
+				defs[i] = fmt.Sprint(d)
+			}
+			fmt.Printf("%s\t%s\t%s\t%d\t%v\t%s\n", s.name, s.callee, strings.Join(s.kinds, ","), opt, s.variadic, strings.Join(defs, ","))
 		}
 	default:
 		os.Exit(2)
